@@ -5,6 +5,8 @@ NAME_POOLS = [
     ["u0", "u1", "u2", "u3", "u4", "u5", "u6", "u7", "u8", "u9"],
     ["B", "a", "C", "d", "E", "f", "G", "h", "I", "j"],
     ["in 1", "Core", "alu", "MemUnit", "out", "fetch", "Decode", "wb", "X", "y"],
+    # names that are special to string.Template, str.format, %-formatting, csv or YAML
+    ["a$b", "$in", "x{0}", "100%s", "q'r", "semi;colon", "#1", "u$$", "${p}", "back\\slash"],
 ]
 
 
@@ -19,7 +21,7 @@ def rand_dag(rng, n, pedge=0.35, shape=None):
     """edges over range(n) respecting a random topological order"""
     order = list(range(n))
     rng.shuffle(order)
-    shape = shape or rng.choice(["random", "random", "chain", "layers", "fork", "sparse"])
+    shape = shape or rng.choice(["random", "random", "chain", "layers", "fork", "sparse", "join"])
     es = []
     if shape == "chain":
         es = [(order[i], order[i + 1]) for i in range(n - 1)]
@@ -36,6 +38,18 @@ def rand_dag(rng, n, pedge=0.35, shape=None):
                 for y in b:
                     if rng.random() < 0.6:
                         es.append((x, y))
+    elif shape == "join" and n >= 4:
+        # routes of unequal length from the inputs into one join unit, which feeds a last unit
+        j, last = order[-2], order[-1]
+        es.append((j, last))
+        rest = order[:-2]
+        k = rng.randint(1, len(rest) - 1) if len(rest) > 1 else 1
+        long_route, short = rest[:k], rest[k:]
+        for a, b in zip(long_route, long_route[1:]):
+            es.append((a, b))
+        es.append((long_route[-1], j))
+        for x in short:
+            es.append((x, j) if rng.random() < 0.7 else (x, rng.choice(long_route)))
     elif shape == "fork":
         for i in range(1, n):
             es.append((order[rng.randrange(i)], order[i]))
@@ -227,7 +241,7 @@ def inject_defect(rng, d, kind=None):
     """one syntactic or structural defect; returns (desc, kind)"""
     us, es = d["units"], d["dataPath"]
     kinds = ["dupname", "badwidth", "badedge", "undef", "cycle", "deadbranch", "nocaps", "deadinput",
-             "blocked", "locks", "aclundef", "emptyname", "selfloop"]
+             "blocked", "locks", "aclundef", "emptyname", "selfloop", "strayport"]
     kind = kind or rng.choice(kinds)
     if kind == "dupname" and us:
         v = dict(rng.choice(us))
@@ -265,6 +279,16 @@ def inject_defect(rng, d, kind=None):
         ins = [u for u in us if u["name"].lower() not in tg and u["name"].lower() in srcs]
         if ins:
             rng.choice(ins)["capabilities"].append("ONLYHERE")
+    elif kind == "strayport" and us:
+        # a further input port offering an existing capability B together with a new one C, whose only
+        # successor supports C alone: B cannot leave the port (blocked), while C's route is fine
+        b = rng.choice([c for u in us for c in u["capabilities"]] or ["ALU"])
+        us.append({"name": "strayIn", "width": 1, "capabilities": [b, "STRAYC"] if rng.random() < 0.5 else ["STRAYC", b],
+                   "readLock": True, "writeLock": True})
+        us.append({"name": "strayOut", "width": 1, "capabilities": ["STRAYC"], "readLock": False, "writeLock": False})
+        es.append(["strayIn", "strayOut"])
+        if rng.random() < 0.5:            # declared first, so that its capabilities are enumerated first
+            us.insert(0, us.pop(-2))
     elif kind == "locks" and us:
         u = rng.choice(us)
         k = rng.choice(["readLock", "writeLock"])
